@@ -2,6 +2,7 @@
 package main
 
 import (
+	"strings"
 	"fmt"
 	"sort"
 
@@ -140,6 +141,25 @@ func runShamir(x *hx.Ctx, c cfg) {
 	}
 	enough := len(distinct) >= c.t
 	secretB := s.Point().Mul(secret, B)
+
+	// the recovery functions only read what the caller hands them: same entries, same order, same indices and values
+	snap := func() string {
+		var sb strings.Builder
+		for k := range sub {
+			if sub[k] == nil {
+				sb.WriteString("nil;")
+				continue
+			}
+			vb, _ := sub[k].V.MarshalBinary()
+			pb, _ := psub[k].V.MarshalBinary()
+			fmt.Fprintf(&sb, "%d:%x/%d:%x;", sub[k].I, vb, psub[k].I, pb)
+		}
+		return sb.String()
+	}
+	before := snap()
+	defer func() {
+		x.Require("recovery leaves the caller's share lists unchanged (entries, order, indices, values)", snap() == before)
+	}()
 
 	rec, err := share.RecoverSecret(s, sub, t, n)
 	if enough {
